@@ -17,8 +17,11 @@ import DarkluaModel.Rules.UnusedVariable
 import DarkluaModel.Rules.UnusedVariableHeap
 import DarkluaModel.Rules.UnusedVariableHeapV
 import DarkluaModel.Rules.UnusedVariableHeapV2
+import DarkluaModel.Rules.UnusedVariableHeapV3
 import DarkluaModel.Rules.NilDeclarationHeap
 import DarkluaModel.Rules.NilDeclarationHeap2
+import DarkluaModel.Rules.AllocCondU
+import DarkluaModel.Rules.ComputeExpressionWhole
 /-! Line-protocol handlers for property C01:
 * `c01.rule <rule-name-hex> <block>` → transformed block (the evaluator instance is the C08 model
   over IEEE doubles, `Rules/EvalC08.lean`);
@@ -112,8 +115,35 @@ def handle (op : String) (args : List String) : String :=
       if (Rules.UnusedVariable.Guarded.applyG driverApi b).toSexp.toString == out then "in (stage 3: cells)"
       else if (Rules.UnusedVariable.GuardedV.applyG driverApi b).toSexp.toString == out then "in (stage 4: cells, tables, closures)"
       else if (Rules.UnusedVariable.GuardedV2.applyG driverApi b).toSexp.toString == out then "in (stage 4 + unused call-valued declarations)"
+      else if (Rules.UnusedVariable.GuardedV3.applyG driverApi b).toSexp.toString == out then "in (stage 4 + unused effectful single values)"
       else "out"
     | none => "bad-request"
+  | "c08guard", some [name, block] =>
+    -- hypotheses `H` of the `…_upto_C08` (exact: h8 ∧ tot) / `…_upto_alloc_C08` (allocating conditions) theorems
+    match nameOfSexp? name, Block.ofSexp? block with
+    | some n, some b =>
+      let gE := Rules.gApi floatOps Evaluator.floatEvalOps
+      let gA := Rules.gApiA floatOps Evaluator.floatEvalOps
+      let same : Block → Block → Bool := fun x y => x.toSexp.toString == y.toSexp.toString
+      if n == "remove_unused_while" then
+        let out := Rules.UnusedWhile.apply driverApi b
+        if same (Rules.UnusedWhile.apply gE b) out then "in (total conditions)"
+        else if same (Rules.UnusedWhile.apply gA b) out then "in (total conditions up to allocation)"
+        else "out"
+      else if n == "remove_unused_if_branch" then
+        let out := Rules.UnusedIfBranch.apply driverApi b
+        if same (Rules.UnusedIfBranch.apply gE b) out then "in (total conditions)"
+        else if same (Rules.UnusedIfBranch.applyGA gA gE b) out then "in (total conditions up to allocation)"
+        else "out"
+      else if n == "convert_index_to_field" then
+        if same (Rules.ConvertIndexToField.apply gE b) (Rules.ConvertIndexToField.apply driverApi b) then "in (total keys)"
+        else "out"
+      else if n == "compute_expression" then
+        if same (Rules.ComputeExpression.Whole.applyG gE b) (Rules.ComputeExpression.apply driverApi b) then
+          "in (total operands, no number fold, no F5 rewrite)"
+        else "out"
+      else "not-applicable"
+    | _, _ => "bad-request"
   | "rules", _ => " ".intercalate modelled
   | _, _ => "unknown-op " ++ op
 
